@@ -18,7 +18,8 @@ Driver for C18 (merging, selection and prefix-sum structures).  The first op lin
       D out=<csv> n=<len>
   T lt <cap>                              push <slot> <item> | pop | clear
       D k len= empty= item=<x|none|->     F k slot=<s|->          (which of several equal minima: free)
-  T topk <k>                              in a b c …             (input, concatenated over lines)
+  T topk <k> [<item type>]                in a b c …             (input, concatenated over lines; the type tag
+                                                                  selects the Rust instantiation, the model is on Int)
       D out=<csv> n=<len>
   T fw   then  vals a b c … | size n      upd i x | rank i | range i j | srange i j | sel x | all
       D k upd=ok|err | D k rank=<x|none> | D k range=<x> | D k srange=<x> | D k sel=<i|none>
